@@ -375,7 +375,8 @@ def gen_str_expr(rnd, ncols, depth=2, allow_b=False, bcols=2):
             return ['b', rnd.randrange(_w(bcols))]
         return ['a', rnd.randrange(_w(ncols))]
     if r < 0.6:
-        return ['lit', rnd.choice(STR_POOL + ['select', 'where x', '* ,', "it's", 'say "hi"', 'a1', '#c'])]
+        # `$`-sequences are replacement patterns of JavaScript's String.replace / replaceAll: literal text must go through the code templates verbatim
+        return ['lit', rnd.choice(STR_POOL + ['select', 'where x', '* ,', "it's", 'say "hi"', 'a1', '#c', '$$', '<$&>', "US$", '$`x', "$'", '$1', '{}', '{0}', '%s', '\\1'])]
     return ['concat', gen_str_expr(rnd, ncols, depth - 1, allow_b, bcols), gen_str_expr(rnd, ncols, depth - 1, allow_b, bcols)]
 
 
